@@ -152,6 +152,30 @@ CHECKS = {
         technique="TLA+ spec + TLC; recorded end-to-end runs validated by TLC",
         design_ref="4.11, 5/C22",
     ),
+    "C24": dict(
+        category="other",
+        text="The file every end-to-end run exports is parsed back by the real seed parser (parse_seed_module on a "
+             "real test cluster) and re-exported by the real TestSuiteWriter; for every exported test function TLC "
+             "compares the hash of its code with the hash of the code rendered from the re-parsed test case "
+             "(PipelineTrace.tla: SeedRoundTrip). Pipeline.tla is the design model of the pipeline producing the "
+             "corpus.",
+        note="Sampling over generated suites (shared end-to-end corpus): parser fidelity is not enumerable; TLA+ "
+             "contributes the pipeline model and the formula evaluation. Open known finding: bare enum references "
+             "come back alias-qualified (textual difference only).",
+        technique="TLC trace validation of recorded export/re-parse events (two-stage round trip on real suites)",
+        design_ref="5/C24",
+    ),
+    "C16": dict(
+        category="other",
+        text="Pairs of end-to-end runs with identical configuration and seed but different PYTHONHASHSEED in fresh "
+             "interpreters; TLC evaluates SameSeedSameSuite on the hashes of the two exported files and the first "
+             "diverging pipeline stage (search result, assertions, minimisation, export) is reported for "
+             "localisation (PipelineTrace.tla).",
+        note="A hyperproperty over two whole runs is sampled (6..54 pairs), not enumerated. Found and repaired with "
+             "it: hash-seed dependent iteration in TestCase._resolve_head_references (6dcfafc).",
+        technique="two-run trace validation with TLC (lock-step comparison of recorded pipeline stages)",
+        design_ref="5/C16",
+    ),
 }
 
 NOT_BUILT_REASON = "not built yet in this round (planned, see DESIGN.md section 5); no claim is made"
